@@ -29,8 +29,8 @@ PROPS['C15'] = dict(level='model_checking',
     H('v1_two_lockers', 'C15_mutex_v1.cpp', ['h_lock0', 'h_lock1'], 24, final='h_final2', desc='two async_lock contending'),
     H('v1_locker_vs_try', 'C15_mutex_v1.cpp', ['h_lock0', 'h_try'], 22, final='h_final1', desc='async_lock vs try_lock/unlock'),
     ] + [SEQ('v2_plan_%02d' % p, 'C15_mutex_v2.cpp', 'h_mutex_v2', opts=dict(params=[p], max_rec=4), desc='v2 cancellable mutex: holder + one waiter on a queueing scheduler, event plan %d (base-3: 0 unlock, 1 stop, 2 run scheduler)' % p) for p in range(27)] + [
-    H('v2_stop_vs_unlock', 'C15_race_v2.cpp', ['h_unlock', 'h_stop1'], 40, tier='thorough', timeout=3000, preempt=2, desc='v2 mutex: unlock() popping the head waiter races a stop request on the next queued waiter'),
-    H('v1_two_lockers_try', 'C15_mutex_v1.cpp', ['h_lock0', 'h_lock1', 'h_try'], 30, final='h_final2', tier='thorough', timeout=3000, desc='two async_lock + one try_lock/unlock'),
+    H('v2_stop_vs_unlock', 'C15_race_v2.cpp', ['h_unlock', 'h_stop1'], 40, tier='deep', timeout=3000, preempt=2, desc='v2 mutex: unlock() popping the head waiter races a stop request on the next queued waiter'),
+    H('v1_two_lockers_try', 'C15_mutex_v1.cpp', ['h_lock0', 'h_lock1', 'h_try'], 30, final='h_final2', tier='thorough', timeout=3000, opts=dict(prune=0), desc='two async_lock + one try_lock/unlock'),
   ])
 
 PROPS['C16'] = dict(level='model_checking',
@@ -47,8 +47,8 @@ PROPS['C08'] = dict(level='model_checking',
   harnesses=[
     H('v2_nest_vs_join', 'C08_scope_v2.cpp', ['h_nest0', 'h_join0'], 18, final='h_final11', desc='nest/start/complete racing join'),
   ] + [SEQ('v1_plan_%02d' % p, 'C08_scope_v1.cpp', 'h_scope_v1', exc=True, opts=dict(params=[p], max_rec=4), desc='v1 scope with one attached manual leaf, event plan %d (base-4: 0 complete(), 1 cleanup(), 2 request_stop(), 3 work finishes); leaf outcome symbolic' % p) for p in range(64)] + [
-    H('v2_two_nest_one_join', 'C08_scope_v2.cpp', ['h_nest0', 'h_nest1', 'h_join0'], 24, final='h_final21', tier='thorough', timeout=3000, desc='two nest/start/complete racing join'),
-    H('v2_nest_two_joins', 'C08_scope_v2.cpp', ['h_nest0', 'h_join0', 'h_join1'], 24, final='h_final12', tier='thorough', timeout=3000, desc='one nest racing two joins'),
+    H('v2_two_nest_one_join', 'C08_scope_v2.cpp', ['h_nest0', 'h_nest1', 'h_join0'], 24, final='h_final21', tier='deep', timeout=3000, desc='two nest/start/complete racing join'),
+    H('v2_nest_two_joins', 'C08_scope_v2.cpp', ['h_nest0', 'h_join0', 'h_join1'], 24, final='h_final12', tier='thorough', timeout=3000, opts=dict(prune=0), desc='one nest racing two joins'),
   ])
 
 PROPS['C19'] = dict(level='model_checking',
@@ -87,7 +87,7 @@ PROPS['C01'] = dict(level='model_checking',
             [SEQ('never_started', 'C04_events.cpp', 'h_never_started', opts=dict(max_rec=3), desc='connected but never started: no signal, no child started'),
              H('wa_race_min', 'C01_race2.cpp', ['h_complete1', 'h_stop'], 26, setup='h_setup_wa', final='h_final_wa', desc='when_all: last child completing races an external stop request (real when_all atomics; minimal harness stop source for the outer token)'),
              H('sw_race_min', 'C01_race2.cpp', ['h_complete0', 'h_stop'], 26, setup='h_setup_sw', final='h_final_sw', desc='stop_when: source completing races an external stop request'),
-             H('wa_last_child_vs_stop', 'C01_race.cpp', ['h_complete1', 'h_stop'], 34, setup='h_setup_wa', final='h_final_wa', tier='thorough', timeout=3000, preempt=3, desc='when_all: last child completing races an external stop request (real atomics)')])
+             H('wa_last_child_vs_stop', 'C01_race.cpp', ['h_complete1', 'h_stop'], 34, setup='h_setup_wa', final='h_final_wa', tier='deep', timeout=3000, preempt=3, desc='when_all: last child completing races an external stop request (real atomics)')])
 
 PROPS['C17'] = dict(level='model_checking',
   bounds='find_if(par): symbolic range length 0..600 over a position iterator, one symbolic chunk index per run (single-index bulk scheduler); loops bounded by max_visits',
@@ -101,8 +101,8 @@ PROPS['C17'] = dict(level='model_checking',
 PROPS['C07'] = dict(level='model_checking',
   bounds='time_point arithmetic: |seconds| < 2^32, |nanoseconds| < 2^40, |duration| < 2^44 ticks; timer queue: see harness list',
   outside='operands near INT64 limits (overflow is undefined there); io_epoll/io_uring kernel timers',
-  harnesses=[SEQ('clock_' + n, 'C07_clock.cpp', 'h_' + n, timeout=1800, tier='thorough', desc='monotonic_clock::time_point ' + n) for n in ('normalize', 'add_sub', 'order')] +
-   [H('timerq_n%d_c%d' % (n, c), 'C07_timerq.cpp', ['h_worker', 'h_main'], 44, tier='thorough', timeout=2400, opts=dict(params=[n, c], thread_of_body={'0': 0}), desc='timed_single_thread_context: %d timers with symbolic due times%s' % (n, ', last one cancelled' if c else '')) for n in (2,) for c in (0, 1)] +
+  harnesses=[SEQ('clock_' + n, 'C07_clock.cpp', 'h_' + n, timeout=1800, tier=('thorough' if n == 'normalize' else 'deep'), desc='monotonic_clock::time_point ' + n) for n in ('normalize', 'add_sub', 'order')] +
+   [H('timerq_n%d_c%d' % (n, c), 'C07_timerq.cpp', ['h_worker', 'h_main'], 44, tier='deep', timeout=2400, opts=dict(params=[n, c], thread_of_body={'0': 0}), desc='timed_single_thread_context: %d timers with symbolic due times%s' % (n, ', last one cancelled' if c else '')) for n in (2,) for c in (0, 1)] +
    [H('timer_race_due%d_stop%d' % (d, c), 'C07_timer_race.cpp', ['h_worker', 'h_main'], 40, opts=dict(params=[d, c], thread_of_body={'0': 0}, prune=(0 if c else 1)), desc='timed_single_thread_context: start() of a timer due at %d racing the timer thread%s (minimal outer stop source; receiver frees the op)' % (d, ', then a stop request' if c else '')) for d in (0,) for c in (0, 1)] +
    [H('timer_race_due50_stop1', 'C07_timer_race.cpp', ['h_worker', 'h_main'], 40, tier='thorough', timeout=2400, opts=dict(params=[50, 1], thread_of_body={'0': 0}), desc='timed_single_thread_context: timer due at 50 started, then a stop request races the timer thread')] +
    [H('timerq_seq_n3_c%d' % c, 'C07_timerq.cpp', [], 0, setup='h_seq', final='h_final', opts=dict(params=[3, c, 1], feas=1, feas_at=12, max_visits=200), desc='timed_single_thread_context, sequential: 3 timers with symbolic due times started in order%s, then the run loop executes them (clock jumps to deadlines)' % (', timer %d cancelled first' % (c - 1) if c else '')) for c in (0, 1, 2, 3)])
